@@ -14,8 +14,8 @@ def run(h, P=0, gran=0, params=None, budget=240, labels=None, reach=None, native
     if params: r["params"] = params
     if labels: r["labels"] = labels
     if reach: r["reach"] = reach
-    if native is None and not (h.startswith("C07") or h.startswith("C17") or h in ("C08dec", "C11m", "FRAM", "C06w")):
-        native = "stress"
+    if native is None:
+        native = "data" if (h.startswith("C07") or h.startswith("C17") or h in ("C08dec", "C08big", "C11m", "FRAM")) else "stress"
     if native: r["native"] = native
     if maporder: r["maporder"] = True
     if timers is not None: r["timers"] = timers
